@@ -266,7 +266,14 @@ class Ctx:
 def _cmp_constraints(ctx, c, pol):
     """[[Lin >= 0, ...] alternatives] for the outcome (c == pol); None when not linear.  '!=' gives two alternatives."""
     cmp_ = as_comparison(c)
+    one = Lin(const=1)
     if cmp_ is None:
+        # a bare flag (`cyclic`, `!cyclic`): a 0/1 quantity, pinned by the outcome
+        c0 = c.strip_all()
+        if c0.k == "DeclRefExpr" and c0.tc == "bool" and c0.decl and c0.decl.get("k") in ("parm", "local") and not c0.is_lambda_parm():
+            b = ctx.lin(c0)
+            if b is not None:
+                return [[b - one, one - b]] if pol else [[b, b.scale(-1)]]
         return None
     l, op, r = cmp_
     a, b = ctx.lin(l), ctx.lin(r)
@@ -275,7 +282,6 @@ def _cmp_constraints(ctx, c, pol):
     if not pol:
         op = {"<": ">=", "<=": ">", ">": "<=", ">=": "<", "==": "!=", "!=": "=="}[op]
     d = a - b
-    one = Lin(const=1)
     if op == "<":
         return [[d.scale(-1) - one]]
     if op == "<=":
@@ -656,6 +662,7 @@ def _gather(ctx, f, node, base_cons, seed_atoms, size_cache, skip_size_of=None):
     incomplete = []
     nonlinear = []            # live facts outside the linear fragment: not used in proofs, evaluated on a candidate instance
     alternatives = [[]]
+    groups = []
     for fact in f.facts_at(node):
         if fact.belief:
             continue
@@ -672,12 +679,19 @@ def _gather(ctx, f, node, base_cons, seed_atoms, size_cache, skip_size_of=None):
             base_cons += alts[0]
         elif len(alternatives) * len(alts) <= MAX_CASES:
             alternatives = [a + b for a in alternatives for b in alts]
+            groups.append(set().union(*[c.atoms() for alt in alts for c in alt]))
         else:
             nonlinear.append(fact)
     relevant = set(seed_atoms)
     changed = True
     while changed:
         changed = False
+        for g in groups:
+            # a disjunctive fact is one statement: when one of its cases speaks about a relevant quantity, the quantities of
+            # its other cases decide which case an instance is in (`!cyclic && (idx == 0 || idx == n - 1)`)
+            if g & relevant and not g <= relevant:
+                relevant |= g
+                changed = True
         for c in base_cons + [c for alt in alternatives for c in alt]:
             if c.atoms() & relevant and not c.atoms() <= relevant:
                 relevant |= c.atoms()
@@ -718,6 +732,10 @@ def _gather(ctx, f, node, base_cons, seed_atoms, size_cache, skip_size_of=None):
         for c in base_cons + [c for alt in alternatives for c in alt]:
             if c.atoms() & relevant and not c.atoms() <= relevant:
                 relevant |= c.atoms()
+                grew = True
+        for g in groups:
+            if g & relevant and not g <= relevant:
+                relevant |= g
                 grew = True
         for dn in sorted(ctx.divs):
             if dn in relevant and not ctx.divs[dn][0].atoms() <= relevant:
